@@ -91,16 +91,29 @@ def line_case(draw):
             'badflag': badflag if n > 0 else None, 'badpos': badpos}
 
 
+def typed_values(draw, kind, n):
+    if kind == 'int':
+        return draw(st.lists(st.one_of(st.integers(-999, 10 ** 6), st.integers(0, 200), st.just(-999)), min_size=n, max_size=n))
+    vals = draw(st.lists(values, min_size=n, max_size=n))
+    if kind == 'float32':
+        vals = [float(np.float32(v)) for v in vals]
+    return vals
+
+
 @st.composite
 def source_case(draw):
     n = draw(st.integers(0, 12))
+    kinds = [draw(st.sampled_from(['float', 'float', 'int', 'float32'])) for _ in range(2)]
     return {'name': draw(names),
             # sky coordinates in any convention, and pixel-like coordinates of a few thousand
             'x': draw(st.one_of(st.floats(-360., 360., allow_nan=False), st.floats(-20000., 20000., allow_nan=False))),
             'y': draw(st.one_of(st.floats(-90., 90., allow_nan=False), st.floats(-20000., 20000., allow_nan=False))),
             'valid': draw(st.lists(st.sampled_from(ALLOWED), min_size=n, max_size=n)),
-            'flux': draw(st.lists(values, min_size=n, max_size=n)),
-            'error': draw(st.lists(values, min_size=n, max_size=n)),
+            'flux': typed_values(draw, kinds[0], n),
+            'error': typed_values(draw, kinds[1], n),
+            # element type of the two sequences, independently: Python / numpy floats, whole numbers given as integers
+            # (counts, or catalogue values rounded to integers), single-precision arrays
+            'kinds': kinds,
             'container': draw(st.sampled_from(['list', 'tuple', 'array']))}
 
 
@@ -242,15 +255,25 @@ def run_roundtrip(case, ctx):
         s.name = case['name']
         s.x = case['x']
         s.y = case['y']
+        kinds = case.get('kinds', ['float', 'float'])
+
+        def typed(vals, kind):
+            if case['container'] == 'array':
+                if kind == 'int':
+                    return np.array([int(v) for v in vals], dtype=np.int64 if len(vals) % 2 else np.int32)
+                return np.array(vals, dtype=np.float32 if kind == 'float32' else float)
+            if kind == 'int':
+                return conv([int(v) for v in vals])
+            if kind == 'float32':
+                return conv([np.float32(v) for v in vals])
+            return conv(vals)
         if case['container'] == 'array':
             s.valid = np.array(case['valid'], dtype=int)
-            s.flux = np.array(case['flux'], dtype=float)
-            s.error = np.array(case['error'], dtype=float)
         else:
             s.valid = conv(case['valid'])
-            s.flux = conv(case['flux'])
-            s.error = conv(case['error'])
-    labels = {'container_' + case['container']}
+        s.flux = typed(case['flux'], kinds[0])
+        s.error = typed(case['error'], kinds[1])
+    labels = {'container_' + case['container'], 'flux_%s_error_%s' % tuple(kinds)}
     if n == 0:
         labels.add('n=0')
 
